@@ -120,7 +120,8 @@ def check(cx):
 
     # ---- C13.4 the Database::vacuum protocol ----------------------------------------------------------------
     r4 = cx.rule("C13.4", "MPR/FLOW: Database::vacuum aborts all active transactions first, uses one horizon value for "
-                 "Catalog::vacuum and for clearing the aborted bitmap, commits, then checkpoints", floor=4)
+                 "Catalog::vacuum and for clearing the aborted bitmap, commits, then checkpoints; abort_all marks every Active "
+                 "transaction (no further condition)", floor=5)
     g = cx.guard(r4, VAC, p.fn, VAC)
     if g:
         ab = [c for c in g.calls() if c.callee == K.COORD + "::abort_all"]
@@ -130,6 +131,35 @@ def check(cx):
         ck = [c for c in g.calls() if c.callee == K.PAGER_FLUSH]
         good = bool(ab) and bool(cv) and all(any(g.dominates(a.bb, v.bb) for a in ab) for v in cv)
         cx.verdict(good, r4, "abort-all-first", g.where(), "abort_all dominates Catalog::vacuum", "VACUUM runs while other transactions are active")
+        # ... and abort_all spares nobody: inside its loop the store `state = Aborted` is decided by the iteration and by
+        # the `state == Active` test alone (vacuum_btree assumes that every deleter either committed or rolled back)
+        fa = p.fns.get(K.COORD + "::abort_all")
+        if fa is None:
+            cx.bad(r4, "abort-all-spares-nobody", "", "TransactionCoordinator::abort_all not found")
+        else:
+            st_blocks = [bi for bi, b in enumerate(fa.blocks) for st in b["stmts"]
+                         if any(isinstance(pe, str) and pe.startswith(".state:") for pe in st["dst"][1:])]
+            extra = []
+            for sb in st_blocks:
+                for bi, b in enumerate(fa.blocks):
+                    t = b["term"]
+                    if t["t"] != "switch" or not fa.dominates(bi, sb) or bi == sb:
+                        continue
+                    # a switch that dominates the store and has an arm that does not lead to it decides the store
+                    arms = [x[1] for x in t["targets"]] + [t["otherwise"]]
+                    if all(sb in fa.reachable(a, blocked={bi}) for a in arms):
+                        continue
+                    l = op_local(t["o"])
+                    if t.get("ty") != "bool":
+                        continue          # Option discriminant of Iterator::next: the iteration itself
+                    prod = [c for c in fa.calls() if c.dst and c.dst[0] == l]
+                    okc = [c for c in prod if c.defn in ("std::cmp::PartialEq::eq", "std::cmp::PartialEq::ne") and any("TransactionState" in a for a in c.gargs)]
+                    if not okc:
+                        extra.append("bb%d" % bi)
+            cx.verdict(bool(st_blocks) and not extra, r4, "abort-all-spares-nobody", fa.where(),
+                       "the Aborted store depends on `state == Active` only",
+                       "abort_all skips some active transactions (extra condition at %s): VACUUM then treats the pending delete "
+                       "of a still-open transaction as committed and removes the row physically; a later ROLLBACK cannot bring it back" % extra)
         if cv and cl:
             hv = g.dep_closure(op_local(cv[0].args[-1]))
             hc = g.dep_closure(op_local(cl[0].args[1]))
@@ -184,3 +214,9 @@ def check(cx):
         cx.advisory(r7, "abort_all-persistence", fa.where(),
                     "abort_all %s the aborted bitmap; no failing history is known because the same VACUUM removes the "
                     "aborted transactions' tuples" % ("reaches" if persists else "does not reach"))
+
+    # ---- C13.8 (construct shared with C04.8) ---------------------------------------------------------------------
+    from . import c04
+    cx.include(c04, {"C04.8"}, "C13.8", "shared with C04.8: the decision table of Snapshot::is_transaction_aborted (the only status "
+               "query VACUUM uses for deleters) equals `xid in aborted set`; a narrower answer makes VACUUM take a rolled-back "
+               "delete for a committed one", floor=1, skip=("is_committed_before_snapshot", "is_valid_for_snapshot"))
